@@ -139,3 +139,30 @@ def check(cx):
     cx.include(c09, {"C09.3"}, "C12.7", "shared with C09.3: the cache capacity is configuration — written only by its setter and never "
                "sized from a value widened from a narrower persisted field; a capacity that wraps to a handful of frames makes every "
                "statement fail, i.e. the configured cache size changes results", floor=2)
+
+    # ---- C12.8 a page handed out is a page of the cache --------------------------------------------------------------------
+    r8 = cx.rule("C12.8", "FLOW: every frame that Pager::read_page returns on success is the frame the cache holds "
+                 "(the result of PageCache::get after caching); a frame handed out beside the cache is never written back by eviction "
+                 "or by a checkpoint, so everything written through it is lost - an explicit out-of-memory error is the permitted outcome "
+                 "of a full cache", floor=1)
+    for name in ("read_page",):
+        f = cx.guard(r8, name, p.fn, K.PAGER + "::" + name)
+        if not f:
+            continue
+        outs = []
+        for b in f.blocks:
+            for st in b["stmts"]:
+                if st["dst"] == [0] and st["rv"].get("r") == "agg" and st["rv"].get("variant") == "Ok":
+                    for o in st["rv"]["o"]:
+                        l = op_local(o)
+                        if l is not None:
+                            outs.append({x[1] for x in f.nearest_calls(l) if x[0] == "call"} | {"param" for x in f.nearest_calls(l) if x[0] == "param"})
+        good = bool(outs) and all(o and all(x.endswith("PageCache::get") for x in o) for o in outs)
+        cx.verdict(good, r8, name, f.where(), "%d success value(s), all from PageCache::get" % len(outs),
+                   "Pager::%s can return a frame that does not come from the cache (%s): writes through it never reach the data file" % (
+                       name, sorted(set().union(*outs)) if outs else "no Ok value found"))
+
+    # ---- C12.9 (construct shared with C09.1) ---------------------------------------------------------------------------
+    cx.include(c09, {"C09.1"}, "C12.9", "shared with C09.1: a checkpoint always writes page zero; the header also carries the transaction counters and "
+               "the aborted bitmap, which change without dirtying a page, so a checkpoint that writes it only when pages were dirty loses them "
+               "(with a large cache nothing may be dirty at that moment: the outcome then depends on the cache size)", floor=2)
